@@ -25,7 +25,7 @@ def _total_seconds(td) -> cython.double:
     return days * 86400.0 + seconds + microseconds / 1000000.0
 
 
-cpdef int date_to_idx_fast(
+cpdef long long date_to_idx_fast(
     object date,
     object start_date,
     int resolution,
@@ -46,7 +46,7 @@ cpdef int date_to_idx_fast(
         Scoreboard index
     """
     cdef double diff_seconds
-    cdef int idx
+    cdef long long idx  # dates thousands of years away are more than 2^31 one-minute slots away
 
     # Calculate difference in seconds
     diff_seconds = _total_seconds(date - start_date)
@@ -54,7 +54,7 @@ cpdef int date_to_idx_fast(
     # Integer division for index
     # floor, not truncation: an instant shortly before the start lies in slot -1
     # (outside the table), not in slot 0
-    idx = <int>floor(diff_seconds / <double>resolution)
+    idx = <long long>floor(diff_seconds / <double>resolution)
 
     if force_into_project:
         if idx < 0:
